@@ -120,6 +120,8 @@ Apply(b, o) ==
     [] o.op = "footer"    -> SetFooter(b, o.v)
     [] o.op = "assertion" -> SetAssertion(b, o.v)
     [] o.op = "build"     -> AfterBuild(b)
+    \* time passes: nothing changes - iat / nbf / exp defaults stay those of the creation instant (C13)
+    [] o.op = "tick"      -> b
 
 (***************************************************************************)
 (* What the listed properties allow a build to return in state b.          *)
